@@ -22,6 +22,7 @@ paired run of the harness).
 import CtyModel.Lemmas.d01EqObj
 import CtyModel.Lemmas.d01Has
 import CtyModel.Lemmas.d01Len
+import CtyModel.d01bSide
 namespace CtyModel
 open Value Cov
 
@@ -311,15 +312,6 @@ theorem setHas_true {rec : EqRec} {e : Ty} {i : Int} {x : Payload} : ∀ (js : L
     · simp only [hij, Bool.false_eq_true, if_false] at h
       obtain ⟨y', v, hm, hv, ht⟩ := setHas_true js ys h
       exact ⟨y', v, by simp [hm], hv, ht⟩
-
-/-- hashing respects `Equals`, as far as this needle and this set go: a member that
-`Equals` the needle sits in the bucket `h` the needle hashes to -/
-def hashCoh (e : Ty) (x : Payload) (h : Int) : List Int → List Payload → Bool
-  | j :: js, y :: ys =>
-    (match equalsP e x e y with
-     | .ok v => !v.isTrue || j == h
-     | _ => true) && hashCoh e x h js ys
-  | _, _ => true
 
 theorem hashCoh_mem {e : Ty} {x : Payload} {h : Int} : ∀ {js : List Int} {ys : List Payload}, hashCoh e x h js ys = true →
     ∀ j y v, (j, y) ∈ js.zip ys → equalsP e x e y = .ok v → v.isTrue = true → j = h
